@@ -342,6 +342,21 @@ fn run_case(shell_name: &str, text: &str, flags: &str) -> String {
         let subs: Vec<String> = (0..pool.verif_len()).map(|i| regex_to_json(pool.verif_lookup(i))).collect();
         write!(out, "\"rx\":{},\"subrx\":[{}],", regex_to_json(&regex), subs.join(",")).unwrap();
     }
+    if want("dfa") {
+        // every within-word regex compiled on its own: raw and minimised automaton
+        let mut items: Vec<String> = vec![];
+        for i in 0..pool.verif_len() {
+            match DFA::from_regex_raw(pool.verif_lookup(i).clone(), &pool) {
+                Ok(raw) => {
+                    let rawj = dfa_to_json(&raw);
+                    let min = raw.minimize();
+                    items.push(format!("{{\"raw\":{},\"min\":{}}}", rawj, dfa_to_json(&min)));
+                }
+                Err(e) => items.push(format!("{{\"err\":{}}}", error_to_json(&e))),
+            }
+        }
+        write!(out, "\"subpairs\":[{}],", items.join(",")).unwrap();
+    }
     let mut regex_dot: Vec<u8> = vec![];
     if want("dot") {
         let _ = regex.to_dot(&mut regex_dot, &pool);
